@@ -6,6 +6,8 @@ CONSTANT Reps <- One
 CONSTANT Depths = {1, 2, 3}
 CONSTANT Configs <- CfgAll
 CONSTANT Feed = FALSE
+CONSTANT GoodChains <- MCGood
+CONSTANT BadChains <- MCBad
 CONSTANT Lean = FALSE
 SPECIFICATION Spec
 CHECK_DEADLOCK FALSE
